@@ -24,25 +24,25 @@ PROP = dict(
          "write) split over 16 cases; non-trivial: at least one prefix examined. distinct = distinct (sequence, format) resp. "
          "(file bytes, offset range, reader kind).",
     stages=[
-        dict(harness="c08_unified", flavour="plain", cases={Q: 1560 + 2440, T: 111972 + 300000}, timeout={Q: 600, T: 5400},
+        dict(harness="c08_unified", flavour="plain", cases={Q: 1560 + 2440, T: 111972 + 150000}, timeout={Q: 600, T: 5400},
              args=["mode=seq"], tier_args={Q: ["L=4", "N=4", "Lrandom=8", "Nrandom=9"], T: ["L=6", "N=5", "Lrandom=10", "Nrandom=12"]}),
-        dict(id="c08_trunc", harness="c08_unified", flavour="plain", cases={Q: 128 * 16, T: 3000 * 16}, timeout={Q: 600, T: 5400},
+        dict(id="c08_trunc", harness="c08_unified", flavour="plain", cases={Q: 128 * 16, T: 2000 * 16}, timeout={Q: 600, T: 5400},
              args=["mode=trunc", "chunks=16", "poison=1"], tier_args={Q: ["L=4", "N=5"], T: ["L=6", "N=6", "every_state=1"]}),
-        dict(id="c08_trunc_asan", harness="c08_unified", flavour="asan", cases={Q: 160 + 160, T: 2400 + 2400}, timeout={Q: 600, T: 5400},
-             args=["mode=trunc", "chunks=16", "poison=1"], tier_args={Q: ["L=4", "N=5", "lra_cases=160"], T: ["L=6", "N=6", "every_state=1", "lra_cases=2400"]},
+        dict(id="c08_trunc_asan", harness="c08_unified", flavour="asan", cases={Q: 160 + 160, T: 1600 + 1600}, timeout={Q: 600, T: 5400},
+             args=["mode=trunc", "chunks=16", "poison=1"], tier_args={Q: ["L=4", "N=5", "lra_cases=160"], T: ["L=6", "N=6", "every_state=1", "lra_cases=1600"]},
              max_restarts=100000),
     ],
-    min_nontrivial={Q: 5500, T: 400000},
-    coverage_floor=[("c08_unified", "comparisons_file_after_write", {Q: 18000, T: 2000000}),
-                    ("c08_unified", "rewinds", {Q: 5000, T: 600000}),
-                    ("c08_trunc", "prefixes", {Q: 300000, T: 15000000}),
-                    ("c08_trunc", "reads_exact", {Q: 1000000, T: 40000000}),
-                    ("c08_trunc", "reads_refused", {Q: 500000, T: 20000000}),
+    min_nontrivial={Q: 5500, T: 250000},
+    coverage_floor=[("c08_unified", "comparisons_file_after_write", {Q: 18000, T: 1500000}),
+                    ("c08_unified", "rewinds", {Q: 5000, T: 400000}),
+                    ("c08_trunc", "prefixes", {Q: 300000, T: 20000000}),
+                    ("c08_trunc", "reads_exact", {Q: 1000000, T: 60000000}),
+                    ("c08_trunc", "reads_refused", {Q: 500000, T: 50000000}),
                     ("c08_trunc", "prefixes_ending_on_a_step_boundary", {Q: 150, T: 10000})],
     exhaustive_subspaces=[
         "c08_unified: all sequences of 1..L report-step writes over steps 0..N x {unformatted, formatted}: L=4, N=4 (quick: 780 sequences per format), L=6, N=5 (thorough: 55986 per format)",
         "c08_trunc: every truncation offset 0..size of every file examined (quick: final file of 128 random sequences; thorough: the "
-        "file after every write of 3000 random sequences)",
+        "file after every write of 2000 random sequences)",
     ],
     not_decided=[
         "crash states other than a prefix of the file (writes reordered or torn by the OS / storage below the byte stream)",
